@@ -27,6 +27,7 @@ func init() {
 		var bodies []J
 		for len(pool) < n {
 			q := genRequest(r, ReqOpts{MaxBiases: 3})
+			c02Invalidate(r, q)
 			if r.chance(0.1) {
 				q.Body["preferenceFunction"] = "noSuchMethod"
 			}
